@@ -383,37 +383,70 @@ func panicKey(stack string) string {
 }
 
 var (
-	reFatal     = regexp.MustCompile(`(?m)^fatal error: (.*)$`)
-	rePanicLine = regexp.MustCompile(`(?m)^panic: (.*)$`)
+	reCrashHead = regexp.MustCompile(`(?m)^(panic: |fatal error: )(.*)$`)
+	reGoStack   = regexp.MustCompile(`(?m)^(goroutine \d+ (gp=\S+ m=\S+ (mp=\S+ )?)?\[[^\]]+\]:|runtime stack:)$`)
 )
+
+// goCrash finds the first genuine Go crash report in text: a "panic: ..." or
+// "fatal error: ..." line that is followed within a few lines by a Go stack
+// header ("goroutine N [running]:" / "runtime stack:"). An Ego program's own
+// unhandled panic() also prints a line "panic: <message>" (followed by
+// "Call frames:"), which is program output, not a crash of the host.
+// Returns kind ("panic" | "fatal"), the message, and the text from the header on; kind "" if none.
+func goCrash(text string) (kind, msg, rest string) {
+	for _, m := range reCrashHead.FindAllStringSubmatchIndex(text, -1) {
+		tail := text[m[1]:]
+
+		window := tail
+		if len(window) > 1200 {
+			window = window[:1200]
+		}
+
+		// the stack header must come within the next 8 lines
+		lines := strings.SplitN(window, "\n", 10)
+		if len(lines) > 9 {
+			lines = lines[:9]
+		}
+
+		if !reGoStack.MatchString(strings.Join(lines, "\n")) {
+			continue
+		}
+
+		kind = "panic"
+		if text[m[2]:m[3]] == "fatal error: " {
+			kind = "fatal"
+		}
+
+		return kind, text[m[4]:m[5]], text[m[0]:]
+	}
+
+	return "", "", ""
+}
 
 // fatalKey classifies the stderr of a dead child (or of the real ego binary):
 // "" if it shows no Go crash.
 func fatalKey(stderr string) string {
-	if m := reFatal.FindStringSubmatchIndex(stderr); m != nil {
-		msg := stderr[m[2]:m[3]]
-		kind := "other"
+	kind, msg, rest := goCrash(stderr)
+
+	switch kind {
+	case "fatal":
+		class := "other"
 
 		switch {
 		case strings.Contains(msg, "stack overflow"):
-			kind = "stack-overflow"
+			class = "stack-overflow"
 		case strings.Contains(msg, "concurrent map"):
-			kind = "concurrent-map"
+			class = "concurrent-map"
 		case strings.Contains(msg, "out of memory") || strings.Contains(msg, "cannot allocate"):
-			kind = "out-of-memory"
+			class = "out-of-memory"
 		case strings.Contains(msg, "all goroutines are asleep"):
-			kind = "deadlock"
+			class = "deadlock"
 		case strings.Contains(msg, "unlock of unlocked") || strings.Contains(msg, "RUnlock"):
-			kind = "bad-unlock"
+			class = "bad-unlock"
 		}
 
-		site := fatalSite(stderr[m[1]:], kind)
-
-		return "fatal:" + kind + ":" + site
-	}
-
-	if m := rePanicLine.FindStringSubmatchIndex(stderr); m != nil {
-		rest := stderr[m[1]:]
+		return "fatal:" + class + ":" + fatalSite(rest, class)
+	case "panic":
 		// the first goroutine block after the panic line is the panicking one
 		site, via := crashSite("panic()\n" + firstGoroutine(rest))
 		k := "panic:" + site
